@@ -121,6 +121,19 @@ Proof.
   - unfold Spec.atts_encode in E2. rewrite forallb_forall in E2. specialize (E2 x Hx). now rewrite Hb in E2.
 Qed.
 
+(* creating an id that can be read fails without altering anything, on any container, at any fault stage *)
+Lemma c14_create_unique_cosmos_lemma stage p (c : cdb) q :
+  cz_read (sp_id p) c = Some q -> cz_create_stage stage p c = (c, false).
+Proof.
+  unfold CosmosModel.read, CosmosModel.fetchPlan, CosmosModel.create_stage, CosmosModel.exists_plan. destruct c as [d s]. cbn [fst].
+  destruct (uid_nil (sp_id p)); [reflexivity|].
+  destruct (readItem (sp_id p) (sp_id p) d); [reflexivity | discriminate].
+Qed.
+
+(* if the Exists pre-check itself fails (ReadItem answers an error that is not a 404), nothing is written *)
+Lemma c14_create_precheck_error_cosmos_lemma p (c : cdb) : CosmosModel.create_readerr p c = (c, false).
+Proof. unfold CosmosModel.create_readerr. now destruct (uid_nil (sp_id p)). Qed.
+
 (* The plan batch and the search batch are not atomic together: if the search batch fails, Create
    returns an error although the plan is completely stored - readable, with no search entry.
    (cosmosdb's Create is all-or-nothing for the plan partition only.) *)
